@@ -1249,7 +1249,12 @@ fn random_case(out: &mut Out, rng: &mut Rng, len_lo: u64, len_hi: u64) -> (Cfg, 
 /// the scripted scenarios: (name, descriptor, note)
 fn scripts() -> Vec<(&'static str, String, &'static str)> {
     let timer_in_node_lines = format!("to=50 | non da pn:blk:1 pn:blk:1 dl1 {} da", vec!["pn:try:1"; 55].join(" "));
+    // 257 node sessions: bdSeq runs 0, 1, …, 255 and wraps to 0; every session publishes once
+    let bdseq_wrap = format!("to=3000 | reg1 en1 {} non da pn:blk:1 pd1:blk:1 da", vec!["non da pn:blk:1 da noff da"; 256].join(" "));
+    let bdseq_255 = format!("to=3000 | reg1 en1 {} non da pn:blk:1 pd1:blk:1 da", vec!["non noff da"; 255].join(" "));
     let v: Vec<(&'static str, &str, &'static str)> = vec![
+        ("bdseq-255-session", &bdseq_255, "the node's 256th session carries bdSeq 255, the last value before the wrap: the host must hold it birthed like any other"),
+        ("bdseq-wraps-through-255", &bdseq_wrap, "a long history: the node reconnects 256 times, so its sessions carry every bdSeq value including 255 and the wrap to 0; each NBIRTH and each will must be accepted by the host"),
         ("reorder-timeout-fires-during-node-lines", &timer_in_node_lines, "a gap opens at the host, then the node publishes 55 times (55 node lines = 55 ms) with nothing delivered: the 50 ms reorder timer fires while a node line runs; the `host adv` line that reports those milliseconds to the host model carries the stale + NCMD effects"),
         ("clean-start", "to=3000 | non reg1 en1 reg2 en2 da pn:blk:1 pd1:blk:1 pd2:try:2 da pn:trysort:3 pd1:blksort:2 da", "no fault at all: births, data on the node and two devices, everything delivered in order"),
         ("dropped-ddata-gap-timeout-rebirth", "to=50 | non reg1 en1 da pd1:blk:1 pd1:blk:1 pd1:blk:1 drop0 da adv51 da", "one DDATA is lost: the later ones wait in the resequencer, the reorder timeout fires, the host declares the node stale and sends the rebirth NCMD, the node rebirths"),
